@@ -122,3 +122,17 @@ _add("C17", "the index write is not deferred past the lines; retention removes t
 _add("C18", "a Rename / Remove event re-arms the watch and reloads the file.")
 _add("C19", "a deferred closure that exits the entry does so on every path through the closure (also for non-error panic values).")
 _add("C20", "the node is marked recovered under no other condition than a nil error for a known address.")
+
+# ---- additions after the third round
+_add("C01", "every closure of SentinelEntry.Exit outside the sync.Once touches neither the context nor the slot chain; every field of the three pooled structs is written on recycle.")
+_add("C02", "getSatisfiedBuckets returns nothing but the buckets selected by the window predicate.")
+_add("C03", "the statistic reset on closing clears the whole collection the trip decision sums over.")
+_add("C05", "helpers called by the QPS checkers never read the general threshold; the attachment map a ParamKey rule reads is owned by the entry.")
+_add("C06", "the attachment map of an entry is allocated by the option functions (never the caller's map).")
+_add("C07", "the effect signature of stat.Slot on the inbound node (one increment per passed inbound entry, one decrement per completion, on every path).")
+_add("C08", "while the deprecation test is strict, every BucketLeapArray reader refreshes the slot of `now` before collecting all live buckets.")
+_add("C11", "no product of two non-constant integers in the calculators.")
+_add("C12", "in TryPass the state word is read before the retry deadline (mirror of deadline-before-open).")
+_add("C13", "the builders append to their result in a single loop over the loaded rules (order loaded = order enforced).")
+_add("C16", "the block error and every other field of the pooled result / context are reset on recycle.")
+_add("C17", "fixed-size records are never taken from a raw Read whose byte count is ignored.")
